@@ -370,6 +370,57 @@ impl RelaySender {
     }
 }
 
+/// Verification hook (C19): a [`RelaySender`] over a channel the caller reads instead of
+/// the relay actor.
+#[cfg(feature = "verif-hooks")]
+impl RelaySender {
+    /// `behaviour` 0: a channel with room (`poll_send` is `Ready(Ok)`), 1: the receiver is
+    /// dropped (`Ready(Err)`), 2: a full channel (`Pending`).  The returned closure drains
+    /// `(url, remote endpoint)` of every item sent so far (never the filler of a full channel).
+    #[allow(clippy::type_complexity)]
+    pub(crate) fn verif_channel(
+        behaviour: u8,
+    ) -> (
+        Self,
+        Box<dyn FnMut() -> Vec<(RelayUrl, EndpointId)> + Send>,
+    ) {
+        let (tx, rx) = mpsc::channel::<RelaySendItem>(if behaviour == 2 { 1 } else { 64 });
+        if behaviour == 2 {
+            tx.try_send(RelaySendItem {
+                remote_endpoint: iroh_base::SecretKey::from_bytes(&[19u8; 32]).public(),
+                url: url::Url::parse("https://filler.verif.invalid")
+                    .expect("valid url")
+                    .into(),
+                datagrams: Datagrams::from(&[0u8]),
+            })
+            .expect("room for the filler");
+        }
+        let mut rx = if behaviour == 1 {
+            drop(rx);
+            None
+        } else {
+            Some(rx)
+        };
+        let drain = Box::new(move || {
+            let mut out = Vec::new();
+            if behaviour == 0
+                && let Some(rx) = rx.as_mut()
+            {
+                while let Ok(item) = rx.try_recv() {
+                    out.push((item.url, item.remote_endpoint));
+                }
+            }
+            out
+        });
+        (
+            Self {
+                sender: PollSender::new(tx),
+            },
+            drain,
+        )
+    }
+}
+
 /// Translate a UDP transmit to the `Datagrams` type for sending over the relay.
 fn datagrams_from_transmit(transmit: &Transmit<'_>) -> Datagrams {
     Datagrams {
